@@ -47,6 +47,16 @@ func c17Errors() []c17Err {
 		out = append(out, c17Err{names[i] + ":OpError", func(op string, l, r net.Addr) error {
 			return &net.OpError{Op: op, Net: "tcp", Source: l, Addr: r, Err: os.NewSyscallError(op, en)}
 		}})
+		// an OpError that names the peer only (what datagram sockets, dial and conn wrappers such as the repository's own
+		// queuepacketconn produce), bare and wrapped
+		out = append(out, c17Err{names[i] + ":OpError-peer-only", func(op string, _, r net.Addr) error {
+			return &net.OpError{Op: op, Net: "tcp", Addr: r, Err: os.NewSyscallError(op, en)}
+		}})
+		if i%4 == 0 {
+			out = append(out, c17Err{names[i] + ":wrapped-OpError-peer-only", func(op string, _, r net.Addr) error {
+				return fmt.Errorf("transport: %w", &net.OpError{Op: op, Net: "udp", Addr: r, Err: os.NewSyscallError(op, en)})
+			}})
+		}
 		out = append(out, c17Err{names[i] + ":wrapped-OpError", func(op string, l, r net.Addr) error {
 			return fmt.Errorf("transport: %w", &net.OpError{Op: op, Net: "tcp", Source: l, Addr: r, Err: os.NewSyscallError(op, en)})
 		}})
